@@ -154,7 +154,7 @@ def check(spec, ctx):
 
 def machine(tier, ctx):
     prop = sys.modules[__name__]
-    small = tl.timeline_spec(tier, max_items=14, extra_engine_opts=True)
+    small = tl.timeline_spec(tier, max_items=14, extra_engine_opts=True, allow_modes=True)
 
     class TimelinesMachine(RuleBasedStateMachine):
         def __init__(self):
